@@ -8,6 +8,7 @@ package main
 
 import (
 	"bytes"
+	"encoding/base64"
 	"crypto/rand"
 	"crypto/rsa"
 	"crypto/x509"
@@ -269,7 +270,8 @@ type c20World struct {
 	scheme *runtime.Scheme
 	st     *Store
 	crypto *c20Crypto
-	crds   map[string]bool // CRD names whose custom resources are observed
+	crds   map[string]bool   // CRD names whose custom resources are observed
+	issued map[string]string // leaf secrets issued during the scenario (name -> by whom), see chainMonitor
 }
 
 func c20Extra(n int) map[string]string {
@@ -304,7 +306,7 @@ func c20Versions(vs []c20Ver, content int) []extv1.CustomResourceDefinitionVersi
 }
 
 func c20NewWorld(s *c20Scn) *c20World {
-	w := &c20World{scheme: c20Scheme(), crypto: c20NewCrypto(s.Real, s.Fresh), crds: map[string]bool{}}
+	w := &c20World{scheme: c20Scheme(), crypto: c20NewCrypto(s.Real, s.Fresh), crds: map[string]bool{}, issued: map[string]string{}}
 	st := NewStore(w.scheme)
 	w.st = st
 	for _, m := range c20Migrators() {
@@ -530,6 +532,118 @@ func (w *c20World) canon(s *c20Scn) c20Store {
 		out.DRC = &n
 	}
 	return out
+}
+
+// ---------------------------------------------------------------- the peer
+
+// c20SecretOf abstracts one stored secret.
+func (w *c20World) secretOf(sec *corev1.Secret) c20Secret {
+	x := c20Secret{Name: sec.Name, Crt: w.crypto.blob(sec.Data[corev1.TLSCertKey]), Key: w.crypto.blob(sec.Data[corev1.TLSPrivateKeyKey]),
+		CA: w.crypto.blob(sec.Data[initializer.SecretKeyCACert]), Meta: c20ExtraOf(sec.Labels)}
+	for k, v := range sec.Data {
+		switch k {
+		case corev1.TLSCertKey, corev1.TLSPrivateKeyKey, initializer.SecretKeyCACert:
+		case "other":
+			x.Others, _ = strconv.Atoi(string(v))
+		default:
+			x.Others = -1
+		}
+	}
+	return x
+}
+
+// adoptStored makes the seeding registry know the CA certificates that are stored right now, so that what the
+// peer derives from them (a leaf signed by the stored CA, ca.crt of a leaf) is built from the stored bytes and
+// not from a second certificate for the same key pair.
+func (w *c20World) adoptStored(ns string) {
+	g := w.crypto
+	for _, u := range w.st.OfKind(c20GKSecret) {
+		sec := &corev1.Secret{}
+		c20From(u, sec)
+		b := sec.Data[corev1.TLSCertKey]
+		a := g.blob(b)
+		if a == nil || a.T != "c" || !a.CA || a.KP != a.By {
+			continue
+		}
+		if _, ok := g.keys[a.KP]; !ok {
+			continue
+		}
+		if _, ok := g.pemOf[c20BlobKey(a)]; !ok {
+			g.pemOf[c20BlobKey(a)] = b
+		}
+		if _, ok := g.certs[a.KP]; !ok {
+			if c := c20ParseCertPEM(b); c != nil {
+				g.certs[a.KP] = c
+			}
+		}
+	}
+}
+
+// applyPeer performs the writes of a concurrent peer initialiser out of band (no API call of ours): a missing
+// secret is created, an existing one replaced (new resourceVersion) unless it already has exactly that content.
+func (w *c20World) applyPeer(s *c20Scn, p *c20Peer, steps []c20Step) {
+	st := w.st
+	w.adoptStored(s.NS)
+	last := map[string]int{}
+	for i, x := range p.Secrets {
+		last[x.Name] = i
+	}
+	cas, leaves := c20Leaves(steps)
+	for i, x := range p.Secrets {
+		if last[x.Name] != i {
+			continue // net effect of the peer's writes in this window
+		}
+		data := map[string][]byte{}
+		if x.Crt != nil {
+			data[corev1.TLSCertKey] = w.crypto.bytesOf(x.Crt)
+		}
+		if x.Key != nil {
+			data[corev1.TLSPrivateKeyKey] = w.crypto.bytesOf(x.Key)
+		}
+		if x.CA != nil {
+			data[initializer.SecretKeyCACert] = w.crypto.bytesOf(x.CA)
+		}
+		if x.Others != 0 {
+			data["other"] = []byte(strconv.Itoa(x.Others))
+		}
+		if u := st.Peek(c20GKSecret, s.NS, x.Name); u == nil {
+			st.Seed(&corev1.Secret{ObjectMeta: metav1.ObjectMeta{Name: x.Name, Namespace: s.NS, Labels: c20Extra(x.Meta)}, Data: data})
+		} else {
+			cur := &corev1.Secret{}
+			c20From(u, cur)
+			if mustJSON(w.secretOf(cur)) == mustJSON(x) {
+				continue // same content: no write, no new resourceVersion
+			}
+			st.Mutate(c20GKSecret, s.NS, x.Name, func(u *unstructured.Unstructured) {
+				d := map[string]any{}
+				for k, v := range data {
+					d[k] = base64.StdEncoding.EncodeToString(v)
+				}
+				if len(d) == 0 {
+					delete(u.Object, "data")
+				} else {
+					u.Object["data"] = d
+				}
+				u.SetLabels(c20Extra(x.Meta))
+			})
+		}
+		// a leaf the peer issued while a complete CA is stored and that verifies against it must keep verifying
+		if ls, ok := leaves[x.Name]; ok && !cas[x.Name] && x.Crt != nil {
+			caName := c20CAOf(steps, x.Name)
+			if cu := st.Peek(c20GKSecret, s.NS, caName); cu != nil {
+				ca := &corev1.Secret{}
+				c20From(cu, ca)
+				su := st.Peek(c20GKSecret, s.NS, x.Name)
+				sec := &corev1.Secret{}
+				c20From(su, sec)
+				if _, complete := c20SecretMaterial(ca); complete && w.leafChains(st, s.NS, sec, caName, ls) == "" {
+					if _, mine := w.issued[x.Name]; !mine {
+						w.issued[x.Name] = "the peer"
+					}
+				}
+			}
+		}
+	}
 }
 
 // ---------------------------------------------------------------- files
